@@ -17,6 +17,9 @@ RULE = (
 RULE += (
     ' Also CALLARG (calls as call arguments) and LIST contexts that bind the looked-up value to a name read twice.'
 )
+RULE += (
+    ' Also GLOBALS (module-level variables written inside functions, initialisation before / after / between the function definitions).'
+)
 ASSUME = [
     "reference IC10 machine M and reference executor R as in C01",
     "pre-allocation register names are captured by wrapping generate_code.assign_registers in the harness; instruction k of the "
@@ -35,6 +38,9 @@ def build_cases(tier):
         for cc in common.split_call_case(c, CONV):
             cases.append(dict(cc, static=["regs"]))
     for c in F.func3(tier):
+        cases.append(dict(c, variants=CONV, static=["regs"]))
+    # module-level variables written inside functions (whole-program lifetime whatever the order of definition and initialisation)
+    for c in F.globals_family(tier):
         cases.append(dict(c, variants=CONV, static=["regs"]))
     # for-range loops in functions: start / bound / step held in parameters or locals must stay live around the loop
     for c in F.forfn(tier):
